@@ -113,7 +113,10 @@ def replay_one(job):  # pylint: disable=too-many-locals,too-many-branches,too-ma
         out.append(dict(mode="doit", status="outside", what=f"expression as written is refused by the constructors: {e}"))
     if raw is not None:
         for i, env in enumerate(envs):           # the harness' reading of the program must agree with the model
-            got = vx.evaluate(raw, env)
+            try:
+                got = vx.evaluate(raw, env)
+            except vx.Outside:
+                continue
             if not vx.same_value(mkind, model[i][1], got):
                 raise HarnessBug(f"{vx.prog_str(prog)}: as written evaluates to {vx.show(got)}, model {job['r'][i]}")
     modes = [("auto", "val", lambda: vx.build(prog, leaves, evaluate=True))]
@@ -148,7 +151,8 @@ def replay_one(job):  # pylint: disable=too-many-locals,too-many-branches,too-ma
             continue
         if res[0] == "raised":
             out.append(dict(mode=mode, status="violation",
-                            what=f"well-typed expression not evaluated: {res[1]}: {res[2]}"))
+                            what=(f"well-typed expression not evaluated: {res[1]}: {res[2]}" if which == "val" else
+                                  f"differentiation raised {res[1]}: {res[2]}")))
             continue
         expr = res[1]
         bad, undecided = [], None
@@ -321,12 +325,32 @@ def main() -> int:
 
 
 def replay_file(path: str) -> int:
+    """Re-run one recorded case.  Operand order is by id(), also of intermediate product objects, whose addresses
+    the harness cannot fix: the case is run with intermediate objects allocated above the symbols (fresh heap) and,
+    if the recorded outcome does not show, again with them allocated below (blocks freed before the symbols were
+    created are reused), a few times."""
+    import sympy as sp
+    from sympy.core.cache import clear_cache
+    from symplyphysics.core.experimental.vectors import VectorCross, VectorDot, VectorSymbol
     data = json.loads(open(path).read())
     case = data["case"]
+    seeds = [VectorSymbol(f"j{i}") for i in range(40)]
+    junk = [[VectorCross(seeds[i], seeds[j], evaluate=False), VectorDot(seeds[i], seeds[j], evaluate=False),
+             sp.Mul(sp.Integer(-1), seeds[i], evaluate=False), sp.Add(seeds[i], seeds[j], evaluate=False)]
+            for i in range(40) for j in range(40) if i != j]
     _init()
     job = dict(p=case["p"], r=case["r"], kind=case["kind"], order=tuple(case["order"]), forder=tuple(case["forder"]))
-    _, out = replay_one(job)
-    bad = [o for o in out if o["status"] in ("violation", "nonterm") and o["mode"] == case.get("mode", o["mode"])]
+    bad, out = [], []
+    for attempt in range(8):
+        _, out = replay_one(job)
+        bad = [o for o in out if o["status"] in ("violation", "nonterm") and o["mode"] == case.get("mode", o["mode"])]
+        if bad:
+            if attempt:
+                print(f"(address-order dependent: reproduced on attempt {attempt + 1}, with intermediate objects "
+                      f"allocated below the symbols)")
+            break
+        clear_cache()
+        del junk[:len(junk) // 2 + 1]           # free low blocks: the next intermediate objects reuse them
     for o in bad:
         print(f"VIOLATION property={PID} replay={path}\n  {o['mode']}: {o['what']}")
     print("replayed:", vx.prog_str(job["p"]), "order", job["order"], "->", "violation" if bad else
